@@ -328,6 +328,11 @@ def run(chk, tier, scale=1.0):
                 "every registered object whose member set changed across a load appears in the hook log; ASan+LSan on; non-trivial = >=2 loads or >=1 registration")
     f, r, p = make_case(chk.seed, 0)
     chk.sample({"files": [confgen.render_conservative(x).decode("latin-1") for x in f], "registrations": [x[0] for x in r], "registration_points": p})
+    # a load that succeeds although reading the file misbehaved once must deliver what the WHOLE file says (fault cases of C14)
+    from checks import c14
+    fres = vcommon.pmap(c14.fault_worker, [(exe, chk.seed * 37 + k, 4) for k in range(4 if tier == "quick" else 48)])
+    c14.fold_faults(chk, "C15", fres, ("fault-wrong-tree",))
+    chk.require("fault_cases", 500)
     chk.require("sequences", 500)
     chk.require("registered_value_changes", 200)
     chk.require("object_membership_changes", 20)
@@ -338,6 +343,17 @@ def run(chk, tier, scale=1.0):
 def replay(chk, rep):
     exe = hconf.build_exe("c15-replay")
     w = rep["witness"]
+    if w.get("fault_case"):
+        from checks import c14
+        out = []
+        for k in range(48):
+            o, st = c14.fault_worker((exe, chk.seed * 37 + k, 4))
+            out += [x for x in o if x[0] == "fault-wrong-tree" and x[3].get("fault") == w["fault"]]
+            if out:
+                break
+        for o in out[:3]:
+            print(o[0], o[1], o[2][:2000])
+        return 1 if out else 0
     out, stats = _worker((exe, rep["seed"], w["index"], w["index"] + 1))
     for o in out:
         print(o[0], o[1], o[2][:2000])
